@@ -58,7 +58,7 @@ Definition ser_edge (e : edgeE) : edgeS := mkES (e_fh e) (e_fu e) (e_th e) (e_tu
 Definition serialize (m : mdb) : mdbS := mkMS (map ser_user (m_users m)) (map ser_edge (m_edges m)).
 
 (* ---- loading: maps are rebuilt with the STORED NAME as key (tables[table.Name()] = ..., databases[database.Name()] = ...),
-   and LoadRoleEdge does not read WithAdminOption ---- *)
+   LoadRoleEdge reads every field including WithAdminOption (since e81e089bb) ---- *)
 Definition load_tbl (t : tblS) : tblE := mkT (ts_name t) (ts_privs t).
 Definition load_db (d : dbS) : dbE :=
   mkDB (ds_name d) (ds_privs d) (fold_left (fun acc t => aput (ts_name t) (load_tbl t) acc) (ds_tbls d) []).
@@ -66,7 +66,7 @@ Definition load_ps (p : psS) : psE :=
   mkPS (pss_g p) (fold_left (fun acc d => aput (ds_name d) (load_db d) acc) (pss_dbs p) []).
 Definition load_user (u : userS) : userE :=
   mkU (uss_name u) (uss_host u) (uss_plugin u) (uss_auth u) (uss_locked u) (uss_attrs u) (load_ps (uss_ps u)).
-Definition load_edge (e : edgeS) : edgeE := mkE (es_fh e) (es_fu e) (es_th e) (es_tu e) false.
+Definition load_edge (e : edgeS) : edgeE := mkE (es_fh e) (es_fu e) (es_th e) (es_tu e) (es_admin e).
 Definition load (s : mdbS) : mdb := mkM (map load_user (ms_users s)) (map load_edge (ms_edges s)).
 
 Definition reload (m : mdb) : mdb := load (serialize m).
